@@ -89,6 +89,12 @@ CHECKS = {
         bounds=dict(quick="N=8; <=1 full-grid deviation, <=2 reduced", thorough="N=10; <=2 full-grid deviations"),
         assumptions=["joint effects of more than d deviating draws are not explored"],
     ),
+    "C14": dict(
+        custom="c14",
+        rule="five exhaustive differentials: (order) the whole single-step sweep (every RAND-free instruction x operand product, incl. operand classes that share a lazily computed quantity such as a hypercube edge) executed forward and then in reverse order in one process on one InstructionSet -- every case must give the same outcome in both passes; (profile) the per-case outcome digests of the overflow-checking and the release build are equal; (pairs) all ordered pairs (q,p) of a RAND-free, id-free program corpus: p after q on the same thread with the same and with a fresh InstructionSet equals p alone on a pristine thread, and p twice gives the same result; (cli) the guard-OFF pushr binary run on every terminating corpus program prints the library's final EXEC/CODE/INT stacks; (threads) loom explores ALL interleavings of the atomic operations of 2 and 3 threads that build graphs through the real parser and run loop (and through Graph::add_node): ids pairwise distinct, each thread's final state (ids renamed by creation order) equal; an inventory of statics/atomics/locks/unsafe in /repo/src must list only NODE_COUNTER (otherwise exit 2: the scheduler does not own every shared variable)",
+        bounds=dict(quick="sweep with the small alphabet (capped 3000 cases per instruction); corpus ~150 programs (22k pairs x 2); loom: 2x2, 2x3 unbounded, 3x2 with preemption bound 3", thorough="boundary alphabet (cap 20000); corpus ~1500 programs; loom 3x2 unbounded, 3x3 bound 3"),
+        assumptions=["loom explores 2-3 threads at the one shared atomic; everything else is thread-confined by Rust's type system (no unsafe, no other statics: asserted by the inventory)", "16-thread free-running runs are not part of the verdict"],
+    ),
     "C16": dict(
         families=lambda tier: [fam("int"), fam("item")],
         rule="explicit-state BFS to fixpoint over PushStack<i32> and PushStack<Item>: every reachable content of bounded size x every public operation x every position in [0,len+2], each compared (return value and contents) with a Vec whose index 0 is the top; non-trivial = transitions that change the container",
